@@ -294,6 +294,47 @@ func init() {
 				}
 			}
 		}()
+		// deferred functions that do NOT come from a modifier: registered by a condition helper (if, case, break-if), or
+		// by the caller before the render — in templates without any modifier or include. They run at the end of THAT
+		// render, once.
+		for _, sq := range []struct{ name, tpl, want string }{
+			{"cond-helper", "a{% if vdeferc(7) %}b{% endif %}c", "regc7,ranc7"},
+			{"case-helper", "{% switch %}{% case vdeferc(8) %}x{% endswitch %}{% for i := 0; i < 2; i++ %}{% break if vdeferc(9) %}{% endfor %}", "regc8,regc9,ranc8,ranc9"},
+			{"caller-before-render", "plain text only", "ran-caller"},
+			{"caller-and-helper", "{% if vdeferc(3) %}y{% endif %}", "regc3,ran-caller,ranc3"},
+		} {
+			key, err, pan := regTpl(sq.tpl, true)
+			if err != nil || pan != "" {
+				r.Internal("C18 non-modifier deferred functions: template does not parse: " + sq.tpl)
+				continue
+			}
+			for reps := 1; reps <= 2; reps++ {
+				ctx := dyntpl.NewCtx()
+				evReset()
+				want := ""
+				var outs []string
+				for i := 0; i < reps; i++ {
+					if strings.HasPrefix(sq.name, "caller") {
+						ctx.Defer(func() error { evAdd("ran-caller"); return nil })
+					}
+					res := renderSafe(key, ctx)
+					outs = append(outs, string(res.Out)+" "+res.ErrStr())
+					if i > 0 {
+						want += ","
+					}
+					want += sq.want
+				}
+				afterRenders := evStr()
+				ctx.Reset()
+				log := evStr()
+				r.Count(fmt.Sprintf("non-modifier-deferred:%s:%d", sq.name, reps), true)
+				r.Dist["non-modifier-deferred"]++
+				if afterRenders != want || log != want {
+					r.Violate(fmt.Sprintf("non-modifier-deferred %s reps=%d log=%s", sq.name, reps, afterRenders), "a function deferred by a condition helper or by the caller (no modifier, no include in the template) does not run exactly once at the end of its render",
+						map[string]any{"template": sq.tpl, "renders": outs, "event_log_after_the_renders": afterRenders, "event_log_after_reset": log, "expected": want})
+				}
+			}
+		}
 		// a pool key registered a second time (another package's init, a late registration) while a context holds
 		// objects of the first registration: every object goes back to the pool it was taken from
 		func() {
